@@ -118,6 +118,7 @@ type gen struct {
 	assignErr error
 	frameProps []string
 	opaques map[string]*opaqueDef
+	ifaceCtrs []*Contract // contracts of interface methods this method implements (behavioural subtyping)
 	loopHavoc bool // the havoc in progress is a loop cut, not a call
 	stableCells []stableCell
 	astValid bool // assume theory ast-valid about go/ast node fields
